@@ -71,6 +71,22 @@ check("C09", "exploration", "property-based testing (Hypothesis): generated univ
       "Trusted: vp/reffind.py (finder semantics incl. constants sources), vp/refsearch.py. Open known finding: FindInAll selects per source when '>' is on the project level.",
       "DESIGN.md section 2, C09")
 
+check("C10", "exploration", "metamorphic property-based testing (Hypothesis): five rewrite rules over generated universes on three finders",
+      "Pairs (search, derived searches) generated by the rewrite rules R1-R5 are evaluated on FindInList, FindInPaths and FindInAll over the same generated universe and "
+      "the set relations of the statement are checked between the implementation's own results; plus no duplicates and every result typed and matching a reference form.",
+      "Implementation compared with itself (metamorphic by design); reference unfolding only for the 'matches the search' clause. R4/R5 rewrite open positions only.",
+      "DESIGN.md section 2, C10")
+check("C11", "exploration", "differential property-based testing (Hypothesis): list vs local tree vs server tree vs configured sources, with junk injection",
+      "Generated universes are materialised as list, local tree and server tree; every search is answered by FindInList, FindInPaths(local), FindInPaths(server) and FindInAll, "
+      "compared with each other through a reference existence model, before and after injecting junk that an independent strict path parser rejects.",
+      "Trusted: vp/reffind.py, vp/confmodel.py strict path parser. Open known finding shared with C09 ('>' on the project level is selected per source by FindInAll).",
+      "DESIGN.md section 2, C11")
+check("C12", "exploration", "property-based testing (Hypothesis) over generated histories (create / query / probe) with a reference existence model",
+      "Histories interleave entity creation with queries and Sid probes; after every step exists / find_one / as_sid=False are compared with find on three finders and "
+      "sid.exists / children / siblings with the reference existence model; existing file-system entities must have an existing parent.",
+      "Trusted: vp/reffind.py. Open known finding: shot__cache_node has no source in the demo data conf (existing node file with non-existing parent).",
+      "DESIGN.md section 2, C12")
+
 NOT_APPLICABLE = {
 }
 
